@@ -29,7 +29,38 @@ def main():
         ok = failing == [want]
         print("SELFTEST %s: planted index %d, returned %s -> %s" % (a.id, want, failing, "ok" if ok else "BROKEN"))
         sys.exit(0 if ok else 2)
-    sys.exit(core.run_check(prop, a.tier, seed, replay=a.replay, ncases=a.n))
+    import time
+    t0 = time.time()
+    rc = core.run_check(prop, a.tier, seed, replay=a.replay, ncases=a.n)
+    # the library source differs from the tree the models were validated against (anchors.json): not a violation by itself, but the
+    # search for a failing input is widened -- further seeds with the same generators, within a time budget, until one fails
+    if rc == 0 and a.tier == "quick" and not a.replay and not a.n:
+        import anchors, json
+        ch = anchors.changed()
+        if ch:
+            print("SOURCE-CHANGED: %s differ(s) from the validated tree; widening the search" % ", ".join(ch[:6]))
+            rounds = []
+            base_wall = time.time() - t0
+            noev = os.environ.get("VERIF_NO_EVIDENCE")
+            os.environ["VERIF_NO_EVIDENCE"] = "1"
+            for k in (1, 2):
+                if (time.time() - t0) + base_wall > 420:
+                    break
+                rc = core.run_check(prop, a.tier, seed + 101 * k)
+                rounds.append({"seed": seed + 101 * k, "exit": rc})
+                if rc:
+                    break
+            if noev is None:
+                os.environ.pop("VERIF_NO_EVIDENCE")
+                evp = os.path.join(core.VERIF, "evidence", a.id + ".json")
+                if os.path.exists(evp):
+                    ev = json.load(open(evp))
+                    ev["coverage"]["source_changed_since_validation"] = ch
+                    ev["coverage"]["widened_search_rounds"] = rounds
+                    if rc:
+                        ev["violations"] = max(1, ev.get("violations", 0))
+                    json.dump(ev, open(evp, "w"), indent=1, default=str)
+    sys.exit(rc)
 
 
 if __name__ == "__main__":
